@@ -210,21 +210,27 @@ def rule_r2(ctx) -> RuleResult:
         # step pattern can only match inside a text that contains one of the literals
         guard = parents.get(r)
         lits = []
+        ci = False
         shape_ok = isinstance(guard, ast.If) and guard.body == [r] and not guard.orelse and isinstance(r.value, ast.Name) \
             and parents.get(guard) is fn
         if shape_ok:
             conj = guard.test.values if isinstance(guard.test, ast.BoolOp) and isinstance(guard.test.op, ast.And) else [guard.test]
             for c in conj:
+                subj = c.comparators[0] if isinstance(c, ast.Compare) and len(c.comparators) == 1 else None
+                folded = isinstance(subj, ast.Call) and isinstance(subj.func, ast.Attribute) and subj.func.attr in ("lower", "casefold") and not subj.args
+                if folded:
+                    subj = subj.func.value   # `LIT not in text.lower()`: a case-insensitive containment test
                 if isinstance(c, ast.Compare) and len(c.ops) == 1 and isinstance(c.ops[0], ast.NotIn) and isinstance(c.left, ast.Constant) \
-                        and isinstance(c.left.value, str) and c.left.value and isinstance(c.comparators[0], ast.Name) \
-                        and c.comparators[0].id == r.value.id:
+                        and isinstance(c.left.value, str) and c.left.value and isinstance(subj, ast.Name) \
+                        and subj.id == r.value.id and (not folded or c.left.value == c.left.value.lower()):
                     lits.append(c.left.value)
+                    ci = ci or folded
                 else:
                     shape_ok = False
         if not shape_ok or not lits:
             raise AnalysisError("_template_to_body: early return at line {} has a guard outside the supported fragment "
                                 "(`LIT not in text and ...: return text`)".format(r.lineno))
-        container = "(?s).*(?:" + "|".join(re.escape(x) for x in lits) + ").*"
+        container = ("(?si)" if ci else "(?s)") + ".*(?:" + "|".join(re.escape(x) for x in lits) + ").*"
         later = [(k, pat, n) for _, k, pat, n in steps if n.lineno > r.lineno]
         bad_step = None
         for k, pat, n in later:
